@@ -49,9 +49,19 @@ theorem covers_cls {i : Nat} {s : Shape} (h : covers (.cls i) s = true) : s = .c
   cases s <;> simp [covers] at h
   subst h; rfl
 
-theorem covers_inst {i : Nat} {s : Shape} (h : covers (.inst i) s = true) : s = .inst i := by
+theorem covers_inst {i : Nat} {vs : List Val} {s : Shape} (h : covers (.inst i vs) s = true) :
+    ∃ ss, s = .inst i ss ∧ coversList vs ss = true := by
   cases s <;> simp [covers] at h
-  subst h; rfl
+  obtain ⟨h1, h2⟩ := h
+  subst h1
+  exact ⟨_, rfl, h2⟩
+
+theorem covers_bound {r : Val} {c m : Nat} {s : Shape} (h : covers (.bound r c m) s = true) :
+    ∃ r', s = .bound r' c m ∧ covers r r' = true := by
+  cases s <;> simp [covers] at h
+  obtain ⟨⟨h1, h2⟩, h3⟩ := h
+  subst h2 h3
+  exact ⟨_, rfl, h1⟩
 
 theorem coversList_getElem {vs : List Val} {ss : List (List Shape)} (h : coversList vs ss = true)
     {k : Nat} {v : Val} (hv : vs[k]? = some v) :
@@ -109,19 +119,104 @@ theorem mapOpt_covers {f : Expr → Option Val} {g : Expr → List Shape} (es : 
 def CtxRel : CtxC → CtxA → Prop
   | .module i, .module j => i = j
   | .func i vs, .func j as => i = j ∧ coversList vs as = true
+  | .meth c m s vs, .meth c' m' s' as =>
+    c = c' ∧ m = m' ∧ covers s s' = true ∧ coversList vs as = true
   | _, _ => False
+
+/-- receivers of a class-attribute lookup -/
+def RecvRel : Option Val → Option Shape → Prop
+  | none, none => True
+  | some r, some r' => covers r r' = true
+  | _, _ => False
+
+/-- static well-formedness of class statements used by the soundness proof:
+* a base is named by the class name itself (the last binder of the base name before the class
+  statement is a `class` statement), and
+* only classes without a base define `__init__` (so the `__init__` Python runs is the one whose
+  `self.a = …` assignments jedi finds first). -/
+def WFClasses (p : Prog) : Bool :=
+  p.zipIdx.all fun (s, i) =>
+    match s with
+    | .klass _ (some b) _ init _ =>
+      init.isNone &&
+      (match lastBinder p b i with
+       | some j => (match p[j]? with
+                    | some (.klass _ _ _ _ _) => true
+                    | _ => false)
+       | none => false)
+    | _ => true
+
+theorem wf_base {p : Prog} (hwf : WFClasses p = true) {id c b : Nat} {attrs init methods}
+    (hp : p[id]? = some (.klass c (some b) attrs init methods)) :
+    init = none ∧ ∃ j c' b' a' i' m', lastBinder p b id = some j ∧
+      p[j]? = some (.klass c' b' a' i' m') := by
+  unfold WFClasses at hwf
+  rw [List.all_eq_true] at hwf
+  have := hwf (.klass c (some b) attrs init methods, id) (List.mem_zipIdx_iff_getElem?.mpr hp)
+  simp only [Bool.and_eq_true, Option.isNone_iff_eq_none] at this
+  refine ⟨this.1, ?_⟩
+  cases hb : lastBinder p b id with
+  | none => simp [hb] at this
+  | some j =>
+    simp only [hb] at this
+    cases hj : p[j]? with
+    | none => simp [hj] at this
+    | some st =>
+      cases st with
+      | klass c' b' a' i' m' => exact ⟨j, c', b', a', i', m', rfl, hj⟩
+      | assign _ _ => simp [hj] at this
+      | unpack _ _ => simp [hj] at this
+      | defn _ _ _ => simp [hj] at this
+      | probe _ => simp [hj] at this
 
 /-- the three simulation statements at one fuel level -/
 structure Sound (p : Prog) (fuel : Nat) : Prop where
   eval : ∀ cc ca e v, CtxRel cc ca → evalC p fuel cc e = some v →
     coversAny v (mayE p fuel ca e) = true
   name : ∀ x lim v, nameC p fuel x lim = some v → coversAny v (nameA p fuel x lim) = true
-  attr : ∀ id a v, attrC p fuel id a = some v → coversAny v (attrA p fuel id a) = true
+  attr : ∀ rc ra id a v, RecvRel rc ra → attrC p fuel rc id a = some v →
+    coversAny v (attrA p fuel ra id a) = true
+  selfFound : ∀ id sv ss vs as a v, covers sv ss = true → coversList vs as = true →
+    selfAttrC p fuel id sv vs a = .found v →
+    ∃ r, selfAttrA p fuel id ss as a = some r ∧ coversAny v r = true
+  selfMissing : ∀ id sv ss vs as a, selfAttrC p fuel id sv vs a = .missing →
+    selfAttrA p fuel id ss as a = none
 
 theorem sound_zero (p : Prog) : Sound p 0 :=
   ⟨by intro cc ca e v _ h; simp [evalC] at h,
    by intro x lim v h; simp [nameC] at h,
-   by intro id a v h; simp [attrC] at h⟩
+   by intro rc ra id a v _ h; simp [attrC] at h,
+   by intro id sv ss vs as a v _ _ h; simp [selfAttrC] at h,
+   by intro id sv ss vs as a h; simp [selfAttrC] at h⟩
+
+theorem coversAny_flatMapE {v : Val} {es : List Expr} {f : Expr → List Shape} {e : Expr}
+    (he : e ∈ es) (h : coversAny v (f e) = true) : coversAny v (es.flatMap f) = true := by
+  obtain ⟨t, ht, hc⟩ := coversAny_iff.mp h
+  exact coversAny_of_mem (List.mem_flatMap.mpr ⟨e, he, ht⟩) hc
+
+theorem lastAttr_mem_allAttr {l : List (Nat × Expr)} {a : Nat} {e : Expr}
+    (h : lastAttr l a = some e) : e ∈ allAttr l a := by
+  unfold lastAttr at h
+  simp only [Option.map_eq_some_iff] at h
+  obtain ⟨ae, hae, rfl⟩ := h
+  unfold allAttr
+  exact List.mem_map.mpr ⟨ae, List.mem_of_getLast? hae, rfl⟩
+
+theorem allAttr_nil_of_lastAttr_none {l : List (Nat × Expr)} {a : Nat}
+    (h : lastAttr l a = none) : allAttr l a = [] := by
+  unfold lastAttr at h
+  simp only [Option.map_eq_none_iff, List.getLast?_eq_none_iff] at h
+  unfold allAttr
+  rw [h]
+  rfl
+
+/-- a name whose last binder is a `class` statement denotes exactly that class -/
+theorem name_of_klass {p : Prog} {b lim j : Nat} {c bb at' ii mm}
+    (hb : lastBinder p b lim = some j) (hj : p[j]? = some (.klass c bb at' ii mm)) (m : Nat) :
+    nameC p (m + 1) b lim = some (.cls j) ∧ nameA p (m + 1) b lim = [.cls j] := by
+  constructor
+  · simp [nameC, hb, hj]
+  · simp [nameA, hb, hj]
 
 theorem sound_eval_succ (p : Prog) (n : Nat) (ih : Sound p n) :
     ∀ cc ca e v, CtxRel cc ca → evalC p (n + 1) cc e = some v →
@@ -147,9 +242,11 @@ theorem sound_eval_succ (p : Prog) (n : Nat) (ih : Sound p n) :
         simp only [mayE]
         exact ih.name x pos v h
       | func _ _ => exact absurd hrel (by simp [CtxRel])
+      | meth _ _ _ _ => exact absurd hrel (by simp [CtxRel])
     | func id args =>
       cases ca with
       | module _ => exact absurd hrel (by simp [CtxRel])
+      | meth _ _ _ _ => exact absurd hrel (by simp [CtxRel])
       | func id' as =>
         obtain ⟨hid, hargs⟩ := hrel
         subst hid
@@ -171,8 +268,42 @@ theorem sound_eval_succ (p : Prog) (n : Nat) (ih : Sound p n) :
               exact ih.name x p.length v h
           | assign _ _ => simp [hp] at h
           | unpack _ _ => simp [hp] at h
-          | klass _ _ _ => simp [hp] at h
+          | klass _ _ _ _ _ => simp [hp] at h
           | probe _ => simp [hp] at h
+    | meth cid m sv args =>
+      cases ca with
+      | module _ => exact absurd hrel (by simp [CtxRel])
+      | func _ _ => exact absurd hrel (by simp [CtxRel])
+      | meth cid' m' ss as =>
+        obtain ⟨hc, hm, -, hargs⟩ := hrel
+        subst hc hm
+        simp only [evalC] at h
+        simp only [mayE]
+        cases hmp : methodParams p cid m with
+        | none => simp [hmp] at h
+        | some params =>
+          simp only [hmp] at h ⊢
+          cases hi : indexOf params x with
+          | some i =>
+            simp only [hi] at h ⊢
+            obtain ⟨sk, hsk, hc⟩ := coversList_getElem hargs h
+            simp [hsk, hc]
+          | none =>
+            simp only [hi] at h ⊢
+            exact ih.name x p.length v h
+  | self =>
+    cases cc with
+    | module _ => simp [evalC] at h
+    | func _ _ => simp [evalC] at h
+    | meth cid m sv args =>
+      cases ca with
+      | module _ => exact absurd hrel (by simp [CtxRel])
+      | func _ _ => exact absurd hrel (by simp [CtxRel])
+      | meth cid' m' ss as =>
+        obtain ⟨-, -, hs, -⟩ := hrel
+        simp only [evalC, Option.some.injEq] at h
+        subst h
+        simp [mayE, coversAny, hs]
   | tuple es =>
     simp only [evalC, Option.map_eq_some_iff] at h
     obtain ⟨vs, hvs, rfl⟩ := h
@@ -197,7 +328,8 @@ theorem sound_eval_succ (p : Prog) (n : Nat) (ih : Sound p n) :
       | str => simp [he] at h
       | func _ => simp [he] at h
       | cls _ => simp [he] at h
-      | inst _ => simp [he] at h
+      | inst _ _ => simp [he] at h
+      | bound _ _ _ => simp [he] at h
   | call f args =>
     simp only [evalC] at h
     cases hf : evalC p n cc f with
@@ -230,22 +362,49 @@ theorem sound_eval_succ (p : Prog) (n : Nat) (ih : Sound p n) :
               · cases h
             | assign _ _ => simp [hp] at h
             | unpack _ _ => simp [hp] at h
-            | klass _ _ _ => simp [hp] at h
+            | klass _ _ _ _ _ => simp [hp] at h
             | probe _ => simp [hp] at h
         | cls id =>
           simp only [hf, hm] at h
           have := covers_cls hc
           subst this
           apply coversAny_flatMap hs
-          split at h
-          · simp only [Option.some.injEq] at h
-            subst h
-            simp [coversAny, covers]
-          · cases h
+          cases hia : initArityC p n id with
+          | none => simp [hia] at h
+          | some k =>
+            simp only [hia] at h
+            split at h
+            · simp only [Option.some.injEq] at h
+              subst h
+              simp [coversAny, covers, hargs]
+            · cases h
+        | bound recv cid m =>
+          simp only [hf, hm] at h
+          obtain ⟨r', rfl, hr⟩ := covers_bound hc
+          apply coversAny_flatMap hs
+          cases hp : p[cid]? with
+          | none => simp [hp] at h
+          | some st =>
+            cases st with
+            | klass c base attrs init methods =>
+              simp only [hp] at h ⊢
+              cases hfm : findMethod methods m with
+              | none => simp [hfm] at h
+              | some md =>
+                simp only [hfm] at h ⊢
+                split at h
+                · exact ih.eval (.meth cid (some m) recv vs)
+                    (.meth cid (some m) r' (args.map (mayE p n ca))) md.ret v
+                    ⟨rfl, rfl, hr, hargs⟩ h
+                · cases h
+            | assign _ _ => simp [hp] at h
+            | unpack _ _ => simp [hp] at h
+            | defn _ _ _ => simp [hp] at h
+            | probe _ => simp [hp] at h
         | int => simp [hf, hm] at h
         | str => simp [hf, hm] at h
         | tuple _ => simp [hf, hm] at h
-        | inst _ => simp [hf, hm] at h
+        | inst _ _ => simp [hf, hm] at h
   | attr e a =>
     simp only [evalC] at h
     cases he : evalC p n cc e with
@@ -255,22 +414,34 @@ theorem sound_eval_succ (p : Prog) (n : Nat) (ih : Sound p n) :
       obtain ⟨s, hs, hc⟩ := coversAny_iff.mp hcov
       simp only [mayE]
       cases w with
-      | inst id =>
+      | inst id args =>
         simp only [he] at h
-        have := covers_inst hc
-        subst this
+        obtain ⟨ss, rfl, hl⟩ := covers_inst hc
         apply coversAny_flatMap hs
-        exact ih.attr id a v h
+        have hself : covers (.inst id args) (.inst id ss) = true := by simp [covers, hl]
+        cases hsa : selfAttrC p n id (.inst id args) args a with
+        | found v' =>
+          simp only [hsa, Option.some.injEq] at h
+          subst h
+          obtain ⟨r, hr, hcr⟩ := ih.selfFound id _ _ args ss a v' hself hl hsa
+          simp [hr, hcr]
+        | missing =>
+          simp only [hsa] at h
+          have hnone := ih.selfMissing id (.inst id args) (.inst id ss) args ss a hsa
+          simp only [hnone]
+          exact ih.attr (some (.inst id args)) (some (.inst id ss)) id a v hself h
+        | error => simp [hsa] at h
       | cls id =>
         simp only [he] at h
         have := covers_cls hc
         subst this
         apply coversAny_flatMap hs
-        exact ih.attr id a v h
+        exact ih.attr none none id a v trivial h
       | int => simp [he] at h
       | str => simp [he] at h
       | tuple _ => simp [he] at h
       | func _ => simp [he] at h
+      | bound _ _ _ => simp [he] at h
   | tern c a b =>
     simp only [evalC] at h
     simp only [mayE]
@@ -323,27 +494,57 @@ theorem sound_name_succ (p : Prog) (n : Nat) (ih : Sound p n) :
             | str => simp [he, hi] at h
             | func _ => simp [he, hi] at h
             | cls _ => simp [he, hi] at h
-            | inst _ => simp [he, hi] at h
+            | inst _ _ => simp [he, hi] at h
+            | bound _ _ _ => simp [he, hi] at h
       | defn f params ret =>
         simp only [hp, Option.some.injEq] at h ⊢
         subst h
         simp [coversAny, covers]
-      | klass c base attrs =>
+      | klass c base attrs init methods =>
         simp only [hp, Option.some.injEq] at h ⊢
         subst h
         simp [coversAny, covers]
       | probe e => simp [hp] at h
 
+theorem attr_base_step (p : Prog) (n : Nat) (ih : Sound p n) (rc : Option Val) (ra : Option Shape)
+    (b id a : Nat) (v : Val) (hrecv : RecvRel rc ra)
+    (h : (match nameC p n b id with
+          | some (.cls bid) => attrC p n rc bid a
+          | _ => none) = some v) :
+    coversAny v ((nameA p n b id).flatMap fun s =>
+      match s with
+      | .cls bid => attrA p n ra bid a
+      | _ => []) = true := by
+  cases hn : nameC p n b id with
+  | none => simp [hn] at h
+  | some w =>
+    cases w with
+    | cls bid =>
+      simp only [hn] at h
+      have hcov := ih.name b id _ hn
+      obtain ⟨s, hs, hc⟩ := coversAny_iff.mp hcov
+      have := covers_cls hc
+      subst this
+      apply coversAny_flatMap hs
+      exact ih.attr rc ra bid a v hrecv h
+    | int => simp [hn] at h
+    | str => simp [hn] at h
+    | tuple _ => simp [hn] at h
+    | func _ => simp [hn] at h
+    | inst _ _ => simp [hn] at h
+    | bound _ _ _ => simp [hn] at h
+
 theorem sound_attr_succ (p : Prog) (n : Nat) (ih : Sound p n) :
-    ∀ id a v, attrC p (n + 1) id a = some v → coversAny v (attrA p (n + 1) id a) = true := by
-  intro id a v h
+    ∀ rc ra id a v, RecvRel rc ra → attrC p (n + 1) rc id a = some v →
+      coversAny v (attrA p (n + 1) ra id a) = true := by
+  intro rc ra id a v hrecv h
   simp only [attrC] at h
   simp only [attrA]
   cases hp : p[id]? with
   | none => simp [hp] at h
   | some st =>
     cases st with
-    | klass c base attrs =>
+    | klass c base attrs init methods =>
       simp only [hp] at h ⊢
       cases hl : lastAttr attrs a with
       | some e =>
@@ -351,37 +552,147 @@ theorem sound_attr_succ (p : Prog) (n : Nat) (ih : Sound p n) :
         exact ih.eval (.module id) (.module id) e v rfl h
       | none =>
         simp only [hl] at h ⊢
-        cases base with
-        | none => simp at h
-        | some b =>
-          simp only at h ⊢
-          cases hn : nameC p n b id with
-          | none => simp [hn] at h
-          | some w =>
-            cases w with
-            | cls bid =>
-              simp only [hn] at h
-              have hcov := ih.name b id _ hn
-              obtain ⟨s, hs, hc⟩ := coversAny_iff.mp hcov
-              have := covers_cls hc
-              subst this
-              apply coversAny_flatMap hs
-              exact ih.attr bid a v h
-            | int => simp [hn] at h
-            | str => simp [hn] at h
-            | tuple _ => simp [hn] at h
-            | func _ => simp [hn] at h
-            | inst _ => simp [hn] at h
+        cases hfm : findMethod methods a with
+        | some md =>
+          cases rc with
+          | none => simp [hfm] at h
+          | some r =>
+            cases ra with
+            | none => exact absurd hrecv (by simp [RecvRel])
+            | some r' =>
+              simp only [hfm, Option.some.injEq] at h ⊢
+              subst h
+              have : covers r r' = true := hrecv
+              simp [coversAny, covers, this]
+        | none =>
+          cases base with
+          | none => cases rc <;> simp [hfm] at h
+          | some b =>
+            cases rc with
+            | none =>
+              cases ra with
+              | some _ => exact absurd hrecv (by simp [RecvRel])
+              | none =>
+                simp only [hfm] at h ⊢
+                exact attr_base_step p n ih none none b id a v hrecv h
+            | some r =>
+              cases ra with
+              | none => exact absurd hrecv (by simp [RecvRel])
+              | some r' =>
+                simp only [hfm] at h ⊢
+                exact attr_base_step p n ih (some r) (some r') b id a v hrecv h
     | assign _ _ => simp [hp] at h
     | unpack _ _ => simp [hp] at h
     | defn _ _ _ => simp [hp] at h
     | probe _ => simp [hp] at h
 
-theorem sound (p : Prog) : ∀ fuel, Sound p fuel := by
+theorem sound_selfFound_succ (p : Prog) (hwf : WFClasses p = true) (n : Nat) (ih : Sound p n) :
+    ∀ id sv ss vs as a v, covers sv ss = true → coversList vs as = true →
+      selfAttrC p (n + 1) id sv vs a = .found v →
+      ∃ r, selfAttrA p (n + 1) id ss as a = some r ∧ coversAny v r = true := by
+  intro id sv ss vs as a v hs hl h
+  simp only [selfAttrC] at h
+  simp only [selfAttrA]
+  cases hp : p[id]? with
+  | none => simp [hp] at h
+  | some st =>
+    cases st with
+    | klass c base attrs init methods =>
+      simp only [hp] at h ⊢
+      cases init with
+      | some i =>
+        simp only at h ⊢
+        cases hla : lastAttr i.assigns a with
+        | none => simp [hla] at h
+        | some e =>
+          simp only [hla] at h
+          cases hev : evalC p n (.meth id none sv vs) e with
+          | none => simp [hev] at h
+          | some v' =>
+            simp only [hev, Found.found.injEq] at h
+            subst h
+            have hmem := lastAttr_mem_allAttr hla
+            cases hall : allAttr i.assigns a with
+            | nil => rw [hall] at hmem; simp at hmem
+            | cons e0 es =>
+              refine ⟨_, rfl, ?_⟩
+              rw [← hall]
+              apply coversAny_flatMapE hmem
+              exact ih.eval (.meth id none sv vs) (.meth id none ss as) e v' ⟨rfl, rfl, hs, hl⟩ hev
+      | none =>
+        simp only at h ⊢
+        cases base with
+        | none => simp at h
+        | some b =>
+          simp only at h ⊢
+          obtain ⟨-, j, c', b', a', i', m', hb, hj⟩ := wf_base hwf hp
+          cases n with
+          | zero => simp [nameC] at h
+          | succ m =>
+            obtain ⟨hnc, hna⟩ := name_of_klass hb hj m
+            rw [hnc] at h
+            rw [hna]
+            simp only [firstSome] at h ⊢
+            obtain ⟨r, hr, hcr⟩ := ih.selfFound j sv ss vs as a v hs hl h
+            exact ⟨r, by simp [hr], hcr⟩
+    | assign _ _ => simp [hp] at h
+    | unpack _ _ => simp [hp] at h
+    | defn _ _ _ => simp [hp] at h
+    | probe _ => simp [hp] at h
+
+theorem sound_selfMissing_succ (p : Prog) (hwf : WFClasses p = true) (n : Nat) (ih : Sound p n) :
+    ∀ id sv ss vs as a, selfAttrC p (n + 1) id sv vs a = .missing →
+      selfAttrA p (n + 1) id ss as a = none := by
+  intro id sv ss vs as a h
+  simp only [selfAttrC] at h
+  simp only [selfAttrA]
+  cases hp : p[id]? with
+  | none => simp [hp] at h
+  | some st =>
+    cases st with
+    | klass c base attrs init methods =>
+      simp only [hp] at h ⊢
+      cases init with
+      | some i =>
+        simp only at h ⊢
+        cases hla : lastAttr i.assigns a with
+        | some e =>
+          simp only [hla] at h
+          cases hev : evalC p n (.meth id none sv vs) e <;> simp [hev] at h
+        | none =>
+          rw [allAttr_nil_of_lastAttr_none hla]
+          simp only
+          cases base with
+          | none => rfl
+          | some b =>
+            have := (wf_base hwf hp).1
+            cases this
+      | none =>
+        simp only at h ⊢
+        cases base with
+        | none => rfl
+        | some b =>
+          simp only at h ⊢
+          obtain ⟨-, j, c', b', a', i', m', hb, hj⟩ := wf_base hwf hp
+          cases n with
+          | zero => simp [nameC] at h
+          | succ m =>
+            obtain ⟨hnc, hna⟩ := name_of_klass hb hj m
+            rw [hnc] at h
+            rw [hna]
+            simp only [firstSome] at h ⊢
+            rw [ih.selfMissing j sv ss vs as a h]
+    | assign _ _ => simp [hp] at h
+    | unpack _ _ => simp [hp] at h
+    | defn _ _ _ => simp [hp] at h
+    | probe _ => simp [hp] at h
+
+theorem sound (p : Prog) (hwf : WFClasses p = true) : ∀ fuel, Sound p fuel := by
   intro fuel
   induction fuel with
   | zero => exact sound_zero p
   | succ n ih =>
-    exact ⟨sound_eval_succ p n ih, sound_name_succ p n ih, sound_attr_succ p n ih⟩
+    exact ⟨sound_eval_succ p n ih, sound_name_succ p n ih, sound_attr_succ p n ih,
+      sound_selfFound_succ p hwf n ih, sound_selfMissing_succ p hwf n ih⟩
 
 end JediModel.PyCore
